@@ -97,28 +97,33 @@ theorem world_env (lvl : Level) (me : Nat) : World π true lvl me (Env π lvl me
 
 theorem trust_true (fs : FS) : TrustK π true fs := fun h => by cases h
 
+theorem pre_true (fs : FS) (hi : Inv π true fs) : Inv π true fs ∧ TrustK π true fs ∧ (True → AbsK π true fs) :=
+  ⟨hi, trust_true fs, fun _ h => by cases h⟩
+
 /-- **participants_satisfy_G (calls).** Every system call a cached call makes — whatever the other participants do at
-any level `lvl` — is one `G_clear` allows to participant `me`. (Not `G_calls`: see `caller_leaves_G_calls`.) -/
+any level `lvl` — is one `G_clear` allows to participant `me` (not `G_calls`: see `caller_leaves_G_calls`); moreover it
+completes `func_code.py` only when every result present is of the live source (`CodeSafe`). -/
 theorem participants_satisfy_G {lvl : Level} {me : Nat} {c : Cfg} {a : Nat} (hc : CfgOK π me c) (hsh : c.shelve = false)
     (hcd : CodecOK π.cd) {fs fs' : FS} {tr : List (FS × Op)} {out : Outcome Val}
     (hi : Inv π true fs) (hr : Runs (Env π lvl me) (callProc c a) fs tr out fs') :
-    ∀ x ∈ tr, Allowed π .clear (fun o => o = me) x.1 x.2 :=
-  ((callProc_sat (world_env lvl me) c hc hsh a hcd).sound hr
-    ((good_init (world_env lvl me)).stable) ⟨hi, trust_true fs⟩).1
+    ∀ x ∈ tr, Allowed π .clear (fun o => o = me) x.1 x.2 ∧ CodeSafe π x.1 x.2 := fun x hx =>
+  have h := ((callProc_sat (strong := True) (world_env lvl me) c hc a hcd).sound hr
+    ((good_init (world_env lvl me)).stable) (pre_true fs hi)).1 x hx
+  ⟨h.1, h.2 trivial⟩
 
 /-- **participants_satisfy_G (reduce_size).** Every system call of `Memory.reduce_size` is one `G_evict` allows. -/
 theorem participants_satisfy_G_evict {lvl : Level} {me : Nat} {c : Cfg} {victims : List Nat}
     {fs fs' : FS} {tr : List (FS × Op)} {out : Outcome Unit}
     (hi : Inv π true fs) (hr : Runs (Env π lvl me) (reduceProc c victims) fs tr out fs') :
-    ∀ x ∈ tr, Allowed π .evict (fun o => o = me) x.1 x.2 :=
-  ((reduceProc_sat (world_env lvl me) c victims).sound hr (good_inv (world_env lvl me)).stable hi).1
+    ∀ x ∈ tr, Allowed π .evict (fun o => o = me) x.1 x.2 := fun x hx =>
+  (((reduceProc_sat (world_env lvl me) c victims).sound hr (good_inv (world_env lvl me)).stable hi).1 x hx).1
 
 /-- **participants_satisfy_G (clear).** Every system call of `Memory.clear()` is one `G_clear` allows. -/
 theorem participants_satisfy_G_clear {lvl : Level} {me : Nat} {c : Cfg}
     {fs fs' : FS} {tr : List (FS × Op)} {out : Outcome Unit}
     (hi : Inv π true fs) (hr : Runs (Env π lvl me) (clearProc c) fs tr out fs') :
-    ∀ x ∈ tr, Allowed π .clear (fun o => o = me) x.1 x.2 :=
-  ((clearProc_sat (world_env lvl me) c).sound hr (good_inv (world_env lvl me)).stable hi).1
+    ∀ x ∈ tr, Allowed π .clear (fun o => o = me) x.1 x.2 := fun x hx =>
+  (((clearProc_sat (strong := True) (world_env lvl me) c).sound hr (good_inv (world_env lvl me)).stable hi).1 x hx).1
 
 /-! ## Calls are correct under `G_calls` and `G_evict` -/
 
@@ -128,11 +133,15 @@ theorem call_correct_under_G_calls {me : Nat} {c : Cfg} {a : Nat} (hc : CfgOK π
     (hcd : CodecOK π.cd) {fs fs' : FS} {tr : List (FS × Op)} {out : Outcome Val}
     (hi : Inv π true fs) (hr : Runs (G_calls π (fun o => o ≠ me)) (callProc c a) fs tr out fs') :
     out = .ok ⟨π.ver, a⟩ := by
-  have h := ((callProc_sat (world_env .calls me) c hc hsh a hcd).sound hr
-    ((good_init (world_env .calls me)).stable) ⟨hi, trust_true fs⟩).2
+  have h := ((callProc_sat (strong := True) (world_env .calls me) c hc a hcd).sound hr
+    ((good_init (world_env .calls me)).stable) (pre_true fs hi)).2
   cases out with
-  | ok v => simp only [OutSat] at h; rw [h.2]
-  | raised e => simp only [OutSat, EL] at h; cases h
+  | ok v => simp only [OutSat] at h; rw [h.2.2 hsh]
+  | raised e =>
+    simp only [OutSat, EC] at h
+    rcases h with h | h
+    · cases h
+    · rw [hsh] at h; cases h
 
 /-- **call_correct_under_G_evict.** The same when the other participants may also evict entries (`reduce_size`, an
 expiring validation callback, …). -/
@@ -140,18 +149,22 @@ theorem call_correct_under_G_evict {me : Nat} {c : Cfg} {a : Nat} (hc : CfgOK π
     (hcd : CodecOK π.cd) {fs fs' : FS} {tr : List (FS × Op)} {out : Outcome Val}
     (hi : Inv π true fs) (hr : Runs (G_evict π (fun o => o ≠ me)) (callProc c a) fs tr out fs') :
     out = .ok ⟨π.ver, a⟩ := by
-  have h := ((callProc_sat (world_env .evict me) c hc hsh a hcd).sound hr
-    ((good_init (world_env .evict me)).stable) ⟨hi, trust_true fs⟩).2
+  have h := ((callProc_sat (strong := True) (world_env .evict me) c hc a hcd).sound hr
+    ((good_init (world_env .evict me)).stable) (pre_true fs hi)).2
   cases out with
-  | ok v => simp only [OutSat] at h; rw [h.2]
-  | raised e => simp only [OutSat, EL] at h; cases h
+  | ok v => simp only [OutSat] at h; rw [h.2.2 hsh]
+  | raised e =>
+    simp only [OutSat, EC] at h
+    rcases h with h | h
+    · cases h
+    · rw [hsh] at h; cases h
 
 /-- After the call the invariant still holds (so the next call, by anybody, starts from a good directory). -/
 theorem call_keeps_invariant {lvl : Level} {me : Nat} {c : Cfg} {a : Nat} (hc : CfgOK π me c) (hsh : c.shelve = false)
     (hcd : CodecOK π.cd) {fs fs' : FS} {tr : List (FS × Op)} {v : Val}
     (hi : Inv π true fs) (hr : Runs (Env π lvl me) (callProc c a) fs tr (.ok v) fs') : Inv π true fs' :=
-  ((callProc_sat (world_env lvl me) c hc hsh a hcd).sound hr
-    ((good_init (world_env lvl me)).stable) ⟨hi, trust_true fs⟩).2.1
+  ((callProc_sat (strong := True) (world_env lvl me) c hc a hcd).sound hr
+    ((good_init (world_env lvl me)).stable) (pre_true fs hi)).2.1
 
 /-! ## Against `Memory.clear()`
 
@@ -164,8 +177,8 @@ theorem call_correct_under_G_clear_partial {me : Nat} {c : Cfg} {a : Nat} (hc : 
     (hcd : CodecOK π.cd) {fs fs' : FS} {tr : List (FS × Op)} {v : Val}
     (hi : Inv π true fs) (hr : Runs (G_clear π (fun o => o ≠ me)) (callProc c a) fs tr (.ok v) fs') :
     v = ⟨π.ver, a⟩ :=
-  ((callProc_sat (world_env .clear me) c hc hsh a hcd).sound hr
-    ((good_init (world_env .clear me)).stable) ⟨hi, trust_true fs⟩).2.2
+  ((callProc_sat (strong := True) (world_env .clear me) c hc a hcd).sound hr
+    ((good_init (world_env .clear me)).stable) (pre_true fs hi)).2.2.2 hsh
 
 /-! ### Witnesses on a concrete instance -/
 
@@ -242,13 +255,15 @@ theorem caller_leaves_G_calls :
   refine ⟨(run ((configure cfgW).bind fun _ => ensureFuncDir.bind fun _ => Prog.call (.creat pCode)) FS.empty).2,
     ?_, by decide, by decide⟩
   -- the state is reached from the empty directory by allowed calls
-  have hs : Sat (fun _ _ => False) (OwnG πW 0) (Inv πW true)
+  have hs : Sat (fun _ _ => False) (OwnG πW 0 True) (Inv πW true)
       ((configure cfgW).bind fun _ => ensureFuncDir.bind fun _ => Prog.call (.creat pCode))
       (fun _ fs => Inv πW true fs) (fun _ fs => Inv πW true fs) := by
     have hW : World πW true .calls 0 (fun _ _ => False) := ⟨fun _ _ h => h.elim, fun h => by cases h⟩
-    refine Sat.bind ((configure_sat own_up' hW (good_inv hW) cfgW).post (fun _ _ h => h.1) (fun _ _ h => h.1)) fun _ => ?_
+    refine Sat.bind ((configure_sat (G := OwnG πW 0 True) own_up'
+      (fun fs i d hl ha => own_write_other hl (by simp [pGit, pCode]) ha) hW (good_inv hW) cfgW).post
+      (fun _ _ h => h.1) (fun _ _ h => h.1)) fun _ => ?_
     refine Sat.bind ((ensureFuncDir_sat hW (good_inv hW)).post (fun _ _ h => h.1) (fun _ _ h => h.1)) fun _ => ?_
-    refine Sat.ownop (P' := Inv πW true) (fun fs _ => .creat pCode (Or.inr (Or.inr rfl)))
+    refine Sat.ownop (P' := Inv πW true) (fun fs _ => own_up (by intro _ _ _ e; cases e) (.creat pCode (Or.inr (Or.inr rfl))))
       (fun fs h => inv_apply (lvl := .calls) (who := fun x => x = 0) h (.creat pCode (Or.inr (Or.inr rfl))))
       (fun _ _ h hR => hR.elim) fun r => .ret fun fs h => h
   obtain ⟨tr, hr⟩ := runs_solo ((configure cfgW).bind fun _ => ensureFuncDir.bind fun _ => Prog.call (.creat pCode)) FS.empty
